@@ -263,6 +263,11 @@ func (s *Scanner) scan() (tok int, pos Pos, lit string) {
 		ch0 = s.r.peek()
 	}
 
+	if node == &ruleTable && !s.r.eof() {
+		// no rule starts with this byte: consume it, otherwise the caller sees the same
+		// invalid token at the same offset forever
+		s.r.inc()
+	}
 	tok, lit = node.token, s.r.data(&pos)
 	return
 }
